@@ -307,6 +307,7 @@ func (w *wmWorld) releaseAll(r *hx.Run) {
 		time.Sleep(20 * time.Microsecond)
 	}
 	if busyCount(w.actors) > 0 {
+		stalls.Add(1)
 		r.Fail("wait-lost-wakeup", w.m.kind()+": a waiter did not return although its condition was made true repeatedly; statuses="+statuses(w.actors),
 			sig("api", w.m.kind(), "oracle", "blocked-at-end"))
 	}
@@ -393,6 +394,7 @@ sweep:
 		case <-done:
 			break sweep
 		case <-deadline:
+			stalls.Add(2)
 			r.Fail("wait-lost-wakeup", "Counter: waiters did not finish although the value was swept over the whole range for 20s",
 				sig("api", "Counter.Wait", "oracle", "stress-stall"))
 
@@ -487,6 +489,7 @@ func stressStack(r *hx.Run, rng *hx.Rng, sub uint64, producers, consumers, per i
 	select {
 	case <-emptied:
 	case <-time.After(20 * time.Second):
+		stalls.Add(2)
 		r.Fail("wait-lost-wakeup", fmt.Sprintf("Stack.WaitIsEmpty did not return; size=%d taken=%d/%d", s.Size(), got.Load(), total),
 			sig("api", "Stack.WaitIsEmpty", "oracle", "stress-stall"))
 	}
@@ -500,6 +503,7 @@ loop:
 		case <-done:
 			break loop
 		case <-deadline:
+			stalls.Add(2)
 			r.Fail("stall", "Stack consumers did not exit after shutdown", sig("api", "Stack.SignalShutdown", "oracle", "stress-stall"))
 
 			break loop
